@@ -38,7 +38,7 @@ RULE = (
 ASSUMPTIONS = [
     "The oracle 'same content as the corresponding molecule of the undamaged file' compares name, atom order, element, label, type, geometry, coordinates, partial charges and the bond list (endpoints, type) with the parse of the undamaged text by the same entry point.",
     "For generator entry points every molecule yielded before an exception counts as returned.",
-    "Termination is decided by a deterministic delivery cap on the channel (4 x lines + 64 reads); a reader spinning without reading would be stopped by the worker's wall-clock watchdog and reported as a harness error, not a verdict.",
+    "Termination is decided deterministically, without a clock: a delivery cap on the channel (4 x lines + 64 reads) for a reader that keeps pulling, and a step budget (20000 + 600 x lines loop iterations, counted as sys.monitoring JUMP/BRANCH events inside molli.parsing.*; an undamaged corpus file needs < 1 % of it) for a reader that spins without reading. Loops outside molli.parsing (the loaders in molli.chem) are not counted; a spin there would be stopped by the worker's wall-clock watchdog and reported as a harness error.",
 ]
 REAL_VS_STUB = {
     "real": ["molli.parsing.read_mol2 / read_xyz / LineReader", "Structure.yield_from_mol2, CartesianGeometry.yield_from_xyz and the load*/loads* wrappers",
@@ -181,9 +181,82 @@ def entries_for(name, fmt):
     return es
 
 
-# ---------------------------------------------------------------------------- calling molli
+# ---------------------------------------------------------------------------- termination: a deterministic step budget
+class StepBudget(BaseException):
+    """The readers executed more loop iterations than any parse of a text of this size can need."""
+
+
+_BUDGET = {"installed": False, "n": 0, "limit": 1 << 62, "tool": 3}
+
+
+def _install_budget():
+    """Loop iterations (JUMP / BRANCH events of sys.monitoring) are counted inside the parsing modules only.  A reader
+    that spins - with or without pulling lines from its stream - runs into the budget after a number of steps that is a
+    function of the input alone; no clock is involved, so the verdict replays."""
+    import sys
+    import types
+
+    if _BUDGET["installed"]:
+        return
+    import molli.parsing._reader as m1
+    import molli.parsing.mol2 as m2
+    import molli.parsing.xyz as m3
+
+    mon = sys.monitoring
+    T = _BUDGET["tool"]
+    mon.use_tool_id(T, "c10-step-budget")
+
+    def cb(code, off, dest):
+        _BUDGET["n"] += 1
+        if _BUDGET["n"] > _BUDGET["limit"]:
+            raise StepBudget(f"more than {_BUDGET['limit']} loop iterations inside the readers")
+
+    mon.register_callback(T, mon.events.JUMP, cb)
+    mon.register_callback(T, mon.events.BRANCH, cb)
+    seen = set()
+
+    def walk(code):
+        if code in seen:
+            return
+        seen.add(code)
+        mon.set_local_events(T, code, mon.events.JUMP | mon.events.BRANCH)
+        for c in code.co_consts:
+            if isinstance(c, types.CodeType):
+                walk(c)
+
+    for mod in (m1, m2, m3):
+        for obj in vars(mod).values():
+            if getattr(obj, "__module__", None) != mod.__name__:
+                continue
+            if isinstance(obj, types.FunctionType):
+                walk(obj.__code__)
+            elif isinstance(obj, type):
+                for v in vars(obj).values():
+                    f = getattr(v, "__func__", v)
+                    if isinstance(f, types.FunctionType):
+                        walk(f.__code__)
+                    elif isinstance(v, property):
+                        for g in (v.fget, v.fset):
+                            if isinstance(g, types.FunctionType):
+                                walk(g.__code__)
+    _BUDGET["installed"] = True
+    _BUDGET["codes"] = len(seen)
+
+
 def _call(fmt, entry, text):
     """Returns (molecule signatures returned, exception or None, stream stats)."""
+    _install_budget()
+    _BUDGET["n"] = 0
+    _BUDGET["limit"] = 20000 + 600 * (text.count("\n") + 1)
+    try:
+        return _call_inner(fmt, entry, text)
+    except StepBudget as e:
+        return [], e, None
+    finally:
+        _BUDGET["limit"] = 1 << 62
+
+
+def _call_inner(fmt, entry, text):
     import molli as ml
 
     got = []
@@ -528,7 +601,7 @@ def _judge(res, name, fmt, entry, text, dmg, fault_class, section, detail_fault,
     if entry.endswith("@path"):
         res.stats["probe:path_entry_used"] += 1
     sigbase = f"C10|{{clause}}|{fmt}|{fault_class}@{section}"
-    if isinstance(exc, (StreamOveruse, RecursionError)):
+    if isinstance(exc, (StreamOveruse, RecursionError, StepBudget)):
         res.violate("reader-does-not-terminate", sigbase.format(clause="nontermination"),
                     f"{name} via {entry}: {exc!r} after {detail_fault}")
         return
